@@ -517,12 +517,12 @@ def run_check(ctx, lang, props):
                  "overlay harness overlay/internal/tlast/verif_lex_test.go and the comparison/oracle in lib/lex_lib.py",
                  "transcription of unicode/utf8.DecodeRuneInString (Go 1.24 standard library) in LexModel.decodeRune"],
         assumptions=["64-bit platform (int = 64 bit): positions do not overflow",
-                     "Go code is modelled, not verified: the lexer model (both languages) and the control-flow model of the TL1 parser "
-                     "(Lex/LexParse1Model.v) agree with internal/tlast on every input of the op kinds listed here; "
-                     + ("the TL1 parser model's fuel budget is checked, not proved, to suffice (model prints nofuel otherwise); "
-                        "Combinator.crc32() and AST construction are outside the model"
-                        if lang == 1 else
-                        "the TL2 combinator parser is not transcribed: it is covered by the abstract error model (admissibleErr) "
-                        "plus the implementation-side oracle on ParseTL2File")],
+                     "Go code is modelled, not verified: the lexer model and the control-flow model of the " + which + " parser "
+                     "(Lex/LexParse%dModel.v) agree with internal/tlast on every input of the op kinds listed here "
+                     "(tokens with positions, tokenizer error, parser verdict, error class, outer/begin/end positions)" % lang,
+                     "the parser model's fuel budget (10 * (tokens + 2)) is checked on every input, not proved, to suffice "
+                     "(the model prints nofuel otherwise, which is a correspondence mismatch)",
+                     "AST construction" + (" and Combinator.crc32()" if lang == 1 else "") + " are outside the model: covered by the "
+                     "implementation-side oracle only (recover(), error offsets, ConsolePrint / Error() do not panic)"],
         rule="inputs generated from VERIF_SEED; each is lexed and parsed by internal/tlast (rebuilt from /repo with the add-only overlay) "
-             "and lexed by the extracted Coq model; distinct = distinct (options, text) pairs")
+             "and lexed + parsed by the extracted Coq models; distinct = distinct (options, text) pairs")
